@@ -549,6 +549,8 @@ def r02e(ck, prog):
             if idx is not None and idx < len(G.params):
                 return True, "handed to %s as its parameter %s" % (G.name, G.params[idx]["name"]), (G, G.params[idx]["did"])
             return False, "argument of %s (parameter not resolved)" % p.callee, None
+        if p.k == "ConditionalOperator" and c.role in ("then", "else") and const_value(p.child("else") if c.role == "then" else p.child("then")) is not None:
+            return True, "the value of a clamp", None
         if p.k == "VarDecl" or (p.k == "DeclStmt"):
             return False, "initialises a local", None
         if p.k == "BinaryOperator" and p.d["op"] in ("<", "==", "!=", ">", "<=", ">="):
@@ -579,6 +581,20 @@ def r02e(ck, prog):
             q, qc = top.up(casts=True)
             if q is not None and q.k == "BinaryOperator" and q.d["op"] == "=" and qc.within(q.kids[1]) and is_flag(q.kids[0].strip().text()):
                 return True, "its comparison with a constant is stored into %s" % q.kids[0].text(), None
+            # the clamp written as a value:  int nt = (n < 1) ? 1 : n;   - the local carries the (clamped) thread count on
+            pc_, cc_ = p.up(casts=True)
+            if pc_ is not None and pc_.k == "ConditionalOperator" and cc_.role == "cond":
+                arms = [pc_.child("then"), pc_.child("else")]
+                if all(const_value(a_) is not None or (a_.strip(casts=True).k == "DeclRefExpr" and (a_.strip(casts=True).d.get("did") == u.d.get("did"))) for a_ in arms):
+                    holder = pc_.parent
+                    while holder is not None and holder.k in ("ParenExpr", "ImplicitCastExpr", "CStyleCastExpr"):
+                        holder = holder.parent
+                    if holder is not None and holder.role == "declinit" and holder.decl is not None:
+                        return True, "clamped into the local %s" % holder.decl["name"], (F, holder.decl["did"])
+                    if pc_.role == "declinit" and pc_.decl is not None:
+                        return True, "clamped into the local %s" % pc_.decl["name"], (F, pc_.decl["did"])
+                    if holder is not None and holder.k == "BinaryOperator" and holder.d["op"] == "=" and holder.kids[0].strip().k == "DeclRefExpr":
+                        return True, "clamped into the local %s" % holder.kids[0].text(), (F, holder.kids[0].strip().d["did"])
             return False, "compared with a constant outside the clamp / run_parallel idioms", None
         return False, "", None
 
